@@ -259,19 +259,24 @@ def _per_state_count(ln, lst, states, n_s):
   Entries guarded by a test equivalent to `len(state.statistics) > 0` count fully: the guard is false
   exactly when the unguarded count (a multiple of n_s) would be 0."""
   def guard_ok(c):
-    c = strip_casts(c)
-    if c.op == 'cmp' and len(c.args) == 3:
-      op, l, r = c.args
-      try:
-        le, re = ln.scalar(l), ln.scalar(r)
-      except Exception:
-        return False
-      return (op in ('>', '!=') and sp.simplify(le - n_s) == 0 and re == 0) or (op in ('<', '!=') and le == 0 and sp.simplify(re - n_s) == 0) or \
-          (op == '>=' and sp.simplify(le - n_s) == 0 and re == 1) or (op == '<=' and le == 1 and sp.simplify(re - n_s) == 0)
+    """the guard holds exactly when the state has statistics: decided by witness values of len(state.statistics)"""
+    from ..terms import strip_negation
+    c0, flipped = strip_negation(strip_casts(c))
     try:
-      return sp.simplify(ln.scalar(c) - n_s) == 0     # truthiness of the count itself
+      if c0.op == 'cmp' and len(c0.args) == 3 and c0.args[0] in ('<', '<=', '>', '>=', '==', '!='):
+        le, re = ln.scalar(c0.args[1]), ln.scalar(c0.args[2])
+        rel = {'<': sp.Lt, '<=': sp.Le, '>': sp.Gt, '>=': sp.Ge, '==': sp.Eq, '!=': sp.Ne}[c0.args[0]](le, re)
+      else:
+        rel = sp.Ne(ln.scalar(c0), 0)          # truthiness of a count
     except Exception:
       return False
+    for val, want in ((0, False), (1, True), (3, True)):
+      got = rel.subs(n_s, val) if hasattr(rel, 'subs') else rel
+      if got not in (sp.true, sp.false):
+        return False
+      if (bool(got) != flipped) != want:
+        return False
+    return True
 
   def inner_count(d):
     if d is None or is_const(d, None):
@@ -342,7 +347,13 @@ def caller_lists(ctx):
              sample=f'{k}: {got} per state')
     nps = c.args.get('num_statistics_per_state')
     okn = nps is not None and nps.op == 'list' and len(nps.args) == 1 and nps.args[0].op == 'star' and \
-        sp.simplify(ln.scalar(nps.args[0].args[0]) - n_s) == 0 and nps.args[0].args[1].op == 'loopdom' and not nps.args[0].args[1].args[2]
+        sp.simplify(ln.scalar(nps.args[0].args[0]) - n_s) == 0
+    if okn:
+      # one entry per state, unconditionally: a loop over (a zip with) `states` without guards, or an unfiltered comprehension
+      dom_ = nps.args[0].args[1]
+      it_ = dom_.args[1] if dom_.op == 'loopdom' and not dom_.args[2] and (len(dom_.args) < 4 or is_const(dom_.args[3], None)) else \
+          (dom_.args[0] if dom_.op == 'compdom' and len(dom_.args) == 1 else None)
+      okn = it_ is not None and any(y is states for y in walk(it_))
     ctx.ob('C13.P2', fc.short, f'{be}: num_statistics_per_state holds len(state.statistics) for every state', okn,
            'the per-state counts used to deal the results back must be len(state.statistics), one per state, unconditionally', ctx.loc(fc),
            sample='num_statistics_per_state.append(len(state.statistics))')
